@@ -115,16 +115,16 @@ type TableSpec struct {
 	GType   string `json:"gtype"`
 	// GTypeCase: how the source spells the type name in gpkg_geometry_columns ("" = upper case as the standard lists them, "lower", "title":
 	// files from other writers are spelled like that and the tool reads the name without regard to case)
-	GTypeCase string    `json:"gtypecase,omitempty"`
-	SRS       int       `json:"srs"`
+	GTypeCase string `json:"gtypecase,omitempty"`
+	SRS       int    `json:"srs"`
 	// GTypeDecl: the source declares the column with this extension type name (CURVEPOLYGON, MULTISURFACE, ...: super types that may hold the
 	// linear geometries generated here); only for checks that do not compare the type name (the tool registers GEOMETRY for names it does not know)
 	GTypeDecl string `json:"gtypedecl,omitempty"`
 	// Reg: the name under which the table is registered in gpkg_contents / gpkg_geometry_columns when it differs (in case only) from the
 	// name in CREATE TABLE; SQLite table names are case-insensitive
-	Reg string `json:"reg,omitempty"`
-	Cols      []ColSpec `json:"cols"`
-	Rows      []RowSpec `json:"rows"`
+	Reg  string    `json:"reg,omitempty"`
+	Cols []ColSpec `json:"cols"`
+	Rows []RowSpec `json:"rows"`
 }
 
 func (t TableSpec) reg() string {
